@@ -13,7 +13,7 @@ def run_store_not_early(res):
             ("bunt", dict(seed=res.seed + 21, n=15 if quick else 150, len=14, safe=True))]
     res.cov["trusted_base"] = (res.cov.get("trusted_base") or vlib.TRUSTED_BASE_COMMON) + [
         "store clause of C05: 'in the store' = a completed ProcessBatch containing the key's Set; engine durability assumed (see C04)"]
-    sl.run_msg_pipeline(res, res.prop, "Props/C05_store.v", CHECKER, {"not-early"}, plan, tag="C05_store")
+    sl.run_msg_pipeline(res, res.prop, "Props/C05_store.v", CHECKER, {"not-early", "confirmed"}, plan, tag="C05_store")
 
 
 def run(res):
